@@ -40,6 +40,11 @@ def sweep(tier, seed):
                     ok2 = np.allclose(np.asarray(back.values, dtype=float), vals.astype(float), rtol=1e-5)
                     if not (ok and ok2 and np.array_equal(a.values, vals) and r.unit == units(u2)):
                         viol.append({"name": "C08.native.to", "input": [u1, u2, dtype, list(shape)], "observed": detail})
+    # conversions do not depend on earlier conversions of the same object
+    cases += 1
+    rh = N.replay_to_history("", {}, {})
+    if rh["reproduced"]:
+        viol.append({"name": "C08.native.to_history", "input": rh["input"], "observed": rh["observed"]})
     # incompatible pairs raise and leave the source unchanged
     fams = list(N.FAMILIES)
     for f1, f2 in itertools.permutations(fams, 2):
